@@ -257,6 +257,27 @@ theorem idc_sound_no_exchange {sep : SepTest} {topo : MG Name → Except Err (Li
       simp [hf, he0, hn, bind, Except.bind]
     exact idcAlg_sound ⟨hM, hq.wf, hq.ranked⟩ ts hr2 hest Y 0 X Z e hq.disj hrun σ
 
+/-- `P(y | do(x))` depends on the outcome list only through its members -/
+theorem doProb_congr (M : Scm) (G : MG Name) (X : List Name) {Y Y' : List Name} (h : ∀ v, v ∈ Y ↔ v ∈ Y') :
+    M.doProb G X Y = M.doProb G X Y' := by
+  unfold Scm.doProb
+  congr 1
+  apply List.filter_congr
+  intro v _
+  simp [h v]
+
+/-- **the order in which the conditions are met is irrelevant** (relative to rule 2): two successful runs of IDC
+on the same query with the conditions listed in different orders return estimands with the same value. -/
+theorem idc_order_irrelevant_of_rule2 {sep : SepTest} {topo : MG Name → Except Err (List Name)} (ts : TopoSound topo)
+    (G : MG Name) (X Y Z Z' : List Name) (hq : ValidCondQuery G X Y Z) (hq' : ValidCondQuery G X Y Z')
+    (hZ : ∀ v, v ∈ Z ↔ v ∈ Z') (e e' : Expr) (h : idc sep topo G X Y Z = .ok e) (h' : idc sep topo G X Y Z' = .ok e')
+    (M : Scm) (hM : M.Compatible G) (hr2 : Rule2Sound sep M G) (σ' σ : Val) :
+    den (M.env G) σ' e σ = den (M.env G) σ' e' σ := by
+  rw [idc_sound_of_rule2 ts G X Y Z hq e h M hM hr2, idc_sound_of_rule2 ts G X Y Z' hq' e' h' M hM hr2]
+  unfold Scm.condDo
+  rw [doProb_congr M G X (Y := union' Y Z) (Y' := union' Y Z') (fun v => by simp [mem_union', hZ v]),
+    doProb_congr M G X hZ]
+
 /-- the public wrapper turns the refusal into `none`: it never raises `Unidentifiable` itself -/
 theorem identifyOutcomesC_not_unidentifiable (sep : SepTest) (topo : MG Name → Except Err (List Name)) (G : MG Name)
     (X Y Z : List Name) : identifyOutcomesC sep topo G X Y Z ≠ .error .unidentifiable := by
